@@ -8,6 +8,7 @@ import (
 	"net/http/httptest"
 	"os"
 	"path/filepath"
+	"sort"
 	"strings"
 	"sync"
 	"sync/atomic"
@@ -349,21 +350,39 @@ func TestVerif_C18_RacingWriters(t *testing.T) {
 				}
 			}
 		}()
-		go func() { // API reader
-			defer wg.Done()
-			for !stop.Load() {
-				r, err := rig.raw("GET", p, map[string]string{"Authorization": auth}, nil)
-				if err != nil {
-					bad.Store("GET: no HTTP response: " + err.Error())
-					return
-				}
-				var m map[string]any
-				if r.Status != 200 || json.Unmarshal(r.Body, &m) != nil || m["displayName"] == nil {
-					bad.Store(fmt.Sprintf("GET during rewrites: status %d body %q", r.Status, trunc(r.Body)))
-					return
-				}
+		// API readers: every response is a complete definition, and a tag always comes with the same definition
+		// (a client that revalidates with it, or writes with If-Match, must be talking about what it has seen)
+		var tagBody sync.Map
+		var getCount atomic.Int64
+		for rd := 0; rd < 3; rd++ {
+			if rd > 0 {
+				wg.Add(1)
 			}
-		}()
+			go func() {
+				defer wg.Done()
+				for !stop.Load() {
+					r, err := rig.raw("GET", p, map[string]string{"Authorization": auth}, nil)
+					if err != nil {
+						bad.Store("GET: no HTTP response: " + err.Error())
+						return
+					}
+					var m map[string]any
+					if r.Status != 200 || json.Unmarshal(r.Body, &m) != nil || m["displayName"] == nil {
+						bad.Store(fmt.Sprintf("GET during rewrites: status %d body %q", r.Status, trunc(r.Body)))
+						return
+					}
+					getCount.Add(1)
+					if onUser {
+						continue // the group view does not show what the user writers change
+					}
+					et := r.Header.Get("Etag")
+					if prev, seen := tagBody.LoadOrStore(et, fmt.Sprint(m["displayName"])); seen && prev != fmt.Sprint(m["displayName"]) {
+						bad.Store(fmt.Sprintf("the tag %s was served with two different definitions (%q and %q): a reader got one version's body under another version's tag", et, prev, m["displayName"]))
+						return
+					}
+				}
+			}()
+		}
 		exactlyOne := 0
 		for round := 0; round < rounds; round++ {
 			path := p
@@ -439,5 +458,148 @@ func TestVerif_C18_RacingWriters(t *testing.T) {
 		c18rRec.Case(exactlyOne > 0, fmt.Sprint(k, onUser, rounds), map[string]any{"writers": k, "on_user": onUser, "rounds": rounds, "rounds_with_exactly_one_winner": exactlyOne, "file_reads": reads})
 		c18rRec.ClassN("rounds_with_exactly_one_winner", exactlyOne)
 		c18rRec.ClassN("rounds", rounds)
+		c18rRec.ClassN("concurrent_GETs", int(getCount.Load()))
+	})
+}
+
+var c18vRec = verifkit.New("TestVerif_C18_ReadersVsReplacements",
+	"real server: 2..4 clients GET a group (and its user list) in tight loops, 120..400 reads in all, while its definition file is replaced atomically at a high rate -- by an "+
+		"API writer (unconditional PUTs of two alternating definitions of different sizes) and, as an administrator's editor would, by renames of prepared complete versions; "+
+		"oracle: every response is a complete definition of one of the versions, and one tag always comes with one definition (a reader never gets one version's body under "+
+		"another version's tag: that tag would let it overwrite, or keep as still valid, something it has not seen); non-trivial = both versions were served; distinct by plan")
+
+func TestVerif_C18_ReadersVsReplacements(t *testing.T) {
+	defer c18vRec.Flush()
+	rig := getRig()
+	rapid.Check(t, func(t *rapid.T) {
+		c18n++
+		g := fmt.Sprintf("c18v-%d-%d", c18n, time.Now().UnixNano()%100000)
+		fn := filepath.Join(rig.groups, g+".json")
+		defer os.Remove(fn)
+		p := "/galene-api/v0/.groups/" + g
+		auth := basic("root", "rootpw-MARKSECRETroot")
+		// two complete versions of different sizes, prepared next to the live file
+		padA := rapid.IntRange(0, 40).Draw(t, "padA")
+		padB := rapid.IntRange(41, 3000).Draw(t, "padB")
+		verA := fmt.Sprintf(`{"displayName":"version-A","description":"%s","users":{"ua":{"password":"x","permissions":"present"}}}`, strings.Repeat("a", padA))
+		verB := fmt.Sprintf(`{"displayName":"version-B","description":"%s","users":{"ub":{"password":"x","permissions":"present"},"ub2":{"password":"x","permissions":"op"}}}`, strings.Repeat("b", padB))
+		fa, fb := fn+".verA", fn+".verB"
+		os.WriteFile(fa, []byte(verA), 0o600)
+		os.WriteFile(fb, []byte(verB), 0o600)
+		defer os.Remove(fa)
+		defer os.Remove(fb)
+		// (different modification times too)
+		os.Chtimes(fa, time.Now().Add(-2*time.Hour), time.Now().Add(-2*time.Hour))
+		os.Chtimes(fb, time.Now().Add(-time.Hour), time.Now().Add(-time.Hour))
+		os.Link(fa, fn)
+		replacer := rapid.SampledFrom([]string{"renames", "renames", "api", "both"}).Draw(t, "replacer")
+		nreaders := rapid.IntRange(2, 4).Draw(t, "readers")
+		reads := rapid.IntRange(120, 400).Draw(t, "reads")
+		onUsers := rapid.Bool().Draw(t, "readUserList")
+		var stop atomic.Bool
+		var bad atomic.Value
+		var wg sync.WaitGroup
+		var replacements atomic.Int64
+		if replacer != "api" {
+			wg.Add(1)
+			go func() {
+				defer wg.Done()
+				tmp := fn + ".tmp"
+				for i := 0; !stop.Load(); i++ {
+					src := fa
+					if i%2 == 1 {
+						src = fb
+					}
+					os.Remove(tmp)
+					if os.Link(src, tmp) == nil && os.Rename(tmp, fn) == nil {
+						replacements.Add(1)
+					}
+				}
+			}()
+		}
+		if replacer != "renames" {
+			wg.Add(1)
+			go func() {
+				defer wg.Done()
+				for i := 0; !stop.Load(); i++ {
+					body := fmt.Sprintf(`{"displayName":"version-A","description":"%s"}`, strings.Repeat("a", padA))
+					if i%2 == 1 {
+						body = fmt.Sprintf(`{"displayName":"version-B","description":"%s"}`, strings.Repeat("b", padB))
+					}
+					r, err := rig.raw("PUT", p, map[string]string{"Authorization": auth, "Content-Type": "application/json"}, []byte(body))
+					if err == nil && r.Status >= 200 && r.Status < 300 {
+						replacements.Add(1)
+					}
+				}
+			}()
+		}
+		var tagBody sync.Map
+		var served sync.Map
+		var left atomic.Int64
+		left.Store(int64(reads))
+		var rw sync.WaitGroup
+		for rd := 0; rd < nreaders; rd++ {
+			rw.Add(1)
+			go func() {
+				defer rw.Done()
+				for left.Add(-1) >= 0 && bad.Load() == nil {
+					path := p
+					if onUsers {
+						path = p + "/.users/"
+					}
+					r, err := rig.raw("GET", path, map[string]string{"Authorization": auth}, nil)
+					if err != nil {
+						bad.Store("GET: no HTTP response: " + err.Error())
+						return
+					}
+					if r.Status == 404 {
+						continue // between an API writer's versions nothing else is acceptable, but a 404 says nothing about tags
+					}
+					what := ""
+					if onUsers {
+						var us []string
+						if r.Status != 200 || json.Unmarshal(r.Body, &us) != nil {
+							bad.Store(fmt.Sprintf("GET users during replacements: status %d body %q", r.Status, trunc(r.Body)))
+							return
+						}
+						sort.Strings(us)
+						what = strings.Join(us, ",")
+						if what != "ua" && what != "ub,ub2" && what != "" {
+							bad.Store(fmt.Sprintf("the user list %q is that of neither version", what))
+							return
+						}
+					} else {
+						var m map[string]any
+						if r.Status != 200 || json.Unmarshal(r.Body, &m) != nil {
+							bad.Store(fmt.Sprintf("GET during replacements: status %d body %q", r.Status, trunc(r.Body)))
+							return
+						}
+						what = fmt.Sprint(m["displayName"], "/", len(fmt.Sprint(m["description"])))
+						if what != fmt.Sprint("version-A/", padA) && what != fmt.Sprint("version-B/", padB) {
+							bad.Store(fmt.Sprintf("the definition served (%s) is that of neither version", what))
+							return
+						}
+					}
+					served.Store(what, true)
+					et := r.Header.Get("Etag")
+					if prev, seen := tagBody.LoadOrStore(et, what); seen && prev != what {
+						bad.Store(fmt.Sprintf("the tag %s was served once with %q and once with %q: a reader got one version's content under another version's tag", et, prev, what))
+						return
+					}
+				}
+			}()
+		}
+		rw.Wait()
+		stop.Store(true)
+		wg.Wait()
+		if b := bad.Load(); b != nil {
+			t.Fatalf("C18: %v (replaced by %s, %d replacements, %d readers)", b, replacer, replacements.Load(), nreaders)
+		}
+		nver := 0
+		served.Range(func(_, _ any) bool { nver++; return true })
+		c18vRec.Case(nver >= 2, fmt.Sprint(replacer, nreaders, reads, onUsers, padA, padB), map[string]any{"replacer": replacer, "readers": nreaders, "reads": reads, "replacements": replacements.Load(), "versions_served": nver})
+		c18vRec.ClassN("replacements", int(replacements.Load()))
+		c18vRec.ClassIf(nver >= 2, "both_versions_served")
+		c18vRec.Class("replacer_" + replacer)
 	})
 }
